@@ -300,10 +300,11 @@ class _AttributeLookupCreator:
     .. automethod:: __getattr__
     """
     def __init__(self, aggregate: ExpressionT) -> None:
-        self.aggregate = aggregate
+        # name-mangled: every public name must reach __getattr__
+        self.__aggregate = aggregate
 
     def __getattr__(self, name: str) -> Lookup:
-        return Lookup(self.aggregate, name)
+        return Lookup(self.__aggregate, name)
 
 
 @dataclass(frozen=True)
